@@ -41,6 +41,18 @@ SNIPPETS = [
 ]
 
 
+# damaged snippets that break a DOCUMENTED rule of the property (must never be admitted); the other damaged snippets are
+# generic syntax errors, for which only containment/accounting is checked
+MUST_REJECT = {
+    '{ $n ->\n        [one] x\n        [other] y\n    }', '{ $n ->\n       *[one] x\n       *[other] y\n    }', '{ $n ->\n        [one]\n       *[other] y\n    }',
+    '{ msg ->\n       *[a] b\n    }', '{ msg.attr ->\n       *[a] b\n    }', '{ -term ->\n       *[a] b\n    }', '{ -term.attr }',
+    '{ F(a: 1, 2) }', '{ F(a: 1, a: 2) }', '{ f(1) }', '{ Fun(1) }', '{ F(a: 1, msg) }', '{ F(a: 1, msg.attr) }', '{ F(a: 1, -t) }', '{ F(a: 1, $v) }',
+    '{ F(a: 1, G()) }', '{ F(a: 1, { 1 }) }', '{ F(a: 1, "s") }', '{ -t(a: 1, b) }', '{ F(x, a: 1, b: 2, y) }', '{ F(a: 1, a: 1) }',
+    '{ "\\x" }', '{ "\\u00" }', '{ "\\U0000" }', '{ "abc\n    }', '{ "abc', '{ $x', '}', '{ $x }}', '{',
+    '{ $n ->\n        [one] x\n       *\n    }',
+}
+
+
 def make_entry(rng, snippet, kind):
     ident = rng.choice(ftlgen.IDS)
     t1 = rng.choice(['', 'x ', 'Hello '])
@@ -71,6 +83,7 @@ def damage_cases(rng, n):
         pre = b''.join(ftlgen.gen_entry(rng).encode() + rng.choice([b'', b'\n']) for _ in range(rng.randint(0, 2)))
         post = b''.join(ftlgen.gen_entry(rng).encode() + rng.choice([b'', b'\n']) for _ in range(rng.randint(0, 3)))
         attr_ix = -1
+        bad_snippet = None
         if rng.random() < 0.15:
             good, bad = rng.choice(MISSING_VALUE)
             if '.a =' in bad:
@@ -81,7 +94,8 @@ def damage_cases(rng, n):
             st = rng.getstate()
             good = make_entry(rng, valid, kind)
             rng.setstate(st)
-            bad = make_entry(rng, rng.choice(damaged), kind)
+            bad_snippet = rng.choice(damaged)
+            bad = make_entry(rng, bad_snippet, kind)
             attr_ix = {1: 0, 5: 1}.get(kind, -1)
         crlf = rng.random() < 0.15
         g, b = good.encode('latin-1') if False else good.encode('utf-8', 'surrogateescape'), bad.encode('utf-8', 'surrogateescape')
@@ -91,7 +105,8 @@ def damage_cases(rng, n):
             b = bad.replace('\xe9', 'é').encode('utf-8'); g = good.encode('utf-8')
         if crlf:
             g = g.replace(b'\n', b'\r\n'); b = b.replace(b'\n', b'\r\n')
-        out.append(sexp.dumps([b'damage', pre, g, b, post, attr_ix]))
+        must = 1 if (bad_snippet in MUST_REJECT or (good, bad) in MISSING_VALUE[:4]) else 0
+        out.append(sexp.dumps([b'damage', pre, g, b, post, attr_ix, must]))
     return out
 
 
@@ -181,7 +196,9 @@ def oracle(case, out):
         if len(G) != len(P) + 1 + len(Q):
             return None          # E did not parse to exactly one entry: generator slip, not applicable
         if not rb[2]:
-            return None          # the "damage" left a well-formed entry: not a violation of a documented rule
+            if len(c) > 6 and c[6] == 1:
+                return which + ': an entry that breaks a documented syntax rule was parsed without any error'
+            return None          # a generic edit that happens to leave a well-formed entry
         if len(B) < len(P) + len(Q) or B[:len(P)] != P:
             return which + ': a message/term BEFORE the damaged entry changed'
         tail = B[len(B) - len(Q):] if Q else []
